@@ -695,7 +695,16 @@ impl<T> ExternalError<T> for Result<T, ring_error::Unspecified> {
 #[cfg(feature = "pem")]
 impl<T> ExternalError<T> for Result<T, pem::PemError> {
 	fn _err(self) -> Result<T, Error> {
-		self.map_err(|e| Error::PemError(e.to_string()))
+		self.map_err(|e| {
+			// These two quote parts of the input, which may well be private key material
+			// (e.g. a blank line inside a key turns its first lines into "headers")
+			let msg = match e {
+				pem::PemError::InvalidHeader(_) => "invalid header".to_string(),
+				pem::PemError::MismatchedTags(..) => "mismatching BEGIN and END tags".to_string(),
+				e => e.to_string(),
+			};
+			Error::PemError(msg)
+		})
 	}
 }
 
